@@ -417,7 +417,7 @@ REGISTRY = {
                         "static columns read without a lock by the authorisation check are not writes' targets and are outside tablesRead"],
     },
     "C09": {
-        "lean_modules": ["C09"],
+        "lean_modules": ["C09", "C09Total"],
         "run": c09.run,
         "rule": "a worker process (crash isolated, time limited) is fed (i) every table x every column x 16-19 request constructs (Columns, Filter with each value class, Negate, Sort, Limit, Stats aggregates and counters, group-by, ColumnHeaders, custom variable forms) "
                 "on a three-backend dataset with host comments/downtimes and flavours without optional columns, (ii) ~90 hand-written malformed requests in both parse modes and 300 (thorough 3000) byte-mutated generated requests, (iii) WaitTrigger/WaitObject/WaitCondition forms, "
